@@ -2,7 +2,7 @@
 C07 (WP phicache) — L2 model of the CACHE of `class PhiCache` at the bit level, src/phi.cpp:47-97 (constructor),
 192-212 (`is_pix`, `is_cached`, `phi_cache`), 222-274 (`init_cache`), 276-295 (members, `sieve_t`), and of
 `PhiCache::phi<SIGN>` (phi.cpp:102-184) running on that real cache.  src/phi_vector.cpp carries a second copy of
-the class whose text differs in five lines only (PcProps/C07Cache.lean `phiVector_cache_same_text`); the only
+the class whose text differs in three statements only (PcProps/C07CacheSrc.lean `phiVector_cache_same_text`); the only
 semantic difference is the constructor's `max_x`: `(uint64_t) std::pow(x, 1 / 2.3)` in phi.cpp, `isqrt(x)` in
 phi_vector.cpp — both enter the model as the parameter `maxXEst`.
 
@@ -194,7 +194,7 @@ def phiCpp (P : PhiTop) (maxXEst : Nat) (works : List (List Nat)) (x a : Int) : 
     (P.tiny xn phiTinyMaxA : Int) + (works.map (phiThread E xn a.toNat maxXEst)).sum
 
 /-! ### `phi_vector(x, a, primes, pi)` (src/phi_vector.cpp) with its real `PhiCache` object.
-The class text is the one of phi.cpp up to `max_x = isqrt(x)` (PcProps/C07Cache.lean `phiVector_cache_same_text`). -/
+The class text is the one of phi.cpp up to `max_x = isqrt(x)` (PcProps/C07CacheSrc.lean `phiVector_cache_same_text`). -/
 
 /-- first loop of `phi_vector` (`phi[i] = phi[i - 1] + cache.phi<-1>(x / primes[i - 1], i - 2)`), the cache object
     threaded through the calls; mirrors `PhiVec.loop1` -/
